@@ -675,7 +675,21 @@ int32_t tls13ValidateSessionParams(ssl_t *ssl,
         goto out_handshake_failure;
     }
 
+    /* RFC 8446, 4.6.1: a ticket must not be used beyond the lifetime we
+       advertised for it.  (Externally configured PSKs carry no lifetime.) */
+    if (params->ticketLifetime != 0)
+    {
+        psTime_t now;
+        int32 ageMs;
 
+        psGetTime(&now, ssl->userPtr);
+        ageMs = psDiffMsecs(params->timestamp, now, ssl->userPtr);
+        if (ageMs < 0 || (uint32_t) (ageMs / 1000) > params->ticketLifetime)
+        {
+            psTraceErrr("Decrypted session: ticket lifetime exceeded\n");
+            goto out_handshake_failure;
+        }
+    }
 
     return PS_SUCCESS;
 
